@@ -77,6 +77,9 @@ class Cog18(ExactSolver):
         c2 = -(k + 1) / 2
         c3 = c2 - c1 / 2
         x1 = pow(self.tau, 2) - pow(t, 2)
+        if x1 <= 0:
+            # No valid (real) solution for |t| >= tau
+            x1 = np.nan
         temp0 = self.alpha * pow(self.tau, 2) / bigGamma / \
                 (2 * self.alpha - 2 * self.beta - k - 7)
         
